@@ -469,4 +469,24 @@ def reloadOld (N : Nat) (E : Exp) : Exp := { doc := flattenOld N E.doc E.plat, p
 already have them folded in") — modelled for `Witness.C07` -/
 def storeNoBlueprints (N : Nat) (E : Exp) : Doc := { store N E with bps := [] }
 
+/-! ## the identity of a component is (stage, name)
+
+Two components of different stages may carry the same name (`stage0.simulate` / `stage1.simulate`; migrated components
+of consecutive stages are required to): every consumer of a description looks a component up by its stage AND its name
+(`findComp`, `get_component((stage, name))`).  The store writes one list entry per component of `instance()`
+(`FlowIR.pretty_flowir_sort` reorders the keys of every entry and keeps the list as it is), so `flatten` maps the list
+entry by entry. -/
+
+/-- NOT the code that exists: a writer that files the components of the description it writes under their NAME alone
+(a dictionary keyed by `name`: the last component of a name replaces the earlier ones of that name, whatever their
+stage) — modelled for `Witness.C07` and `C07.name_keyed_writer_*` -/
+def keepLastByName : List Comp → List Comp
+  | [] => []
+  | c :: r => if r.any (fun d => d.name == c.name) then keepLastByName r else c :: keepLastByName r
+
+/-- the description such a writer stores, and the experiment loaded from it -/
+def storeByName (N : Nat) (E : Exp) : Doc := { store N E with comps := keepLastByName (store N E).comps }
+
+def reloadByName (N : Nat) (E : Exp) : Exp := { doc := storeByName N E, plat := E.plat, patches := [] }
+
 end St4sd.Instance
